@@ -32,7 +32,8 @@ BAD = ['K', 'm', 'Hz', 'g']
 LEGACY = {'mJy': 'MJY', 'cgs': 'ergs/cm^2/s'}      # legacy spellings in sed/helpers.py UNIT_MAPPING
 REQUIRED_BRANCHES = (['%s->%s' % (a, b) for a in ('fnu', 'flux', 'lum') for b in ('fnu', 'flux', 'lum')] +
                      ['refused', 'order_nu', 'order_wav', 'apertures_1', 'apertures_5', 'wav_increasing',
-                      'wav_decreasing', 'all_zero_err', 'all_zero_flux', 'all_zero_both', 'refused_all_zero', 'sed_from_wav_and_nu', 'sed_from_nu_only', 'sed_from_wav_only', 'no_distance_keyword',
+                      'wav_decreasing', 'read_options_nondefault', 'read_call_positional', 'read_call_keyword',
+                      'file_rewritten_between_reads', 'all_zero_err', 'all_zero_flux', 'all_zero_both', 'refused_all_zero', 'sed_from_wav_and_nu', 'sed_from_nu_only', 'sed_from_wav_only', 'no_distance_keyword',
                       'gz_without_ext', 'gz_with_ext', 'sequential_read', 'sequential_same_ends_other_interior', 'dtype_f4', 'dtype_f8', 'f4_large_luminosity', 'nu_unit_Hz', 'nu_unit_kHz', 'nu_unit_GHz',
                       'nu_unit_THz', 'wav_unit_micron', 'wav_unit_other', 'legacy_units', 'legacy_MJY', 'legacy_ergs', 'err_unit_same', 'err_unit_same_family', 'err_unit_cross_family'] + ['pair_%s_%s' % (a, b) for a in KEYS for b in KEYS])
 ASSUMPTIONS = ['IEEE rounding is not modelled: values compared within 1e-9 relative',
@@ -157,6 +158,8 @@ def gen_case(rng, stored=None, requested=None, nap=None, order=None, wdir=None, 
                 legacy=bool(rng.random() < 0.25 if legacy is None else legacy),
                 dtype=dtype, big_lum=bool(big_lum),
                 gz=(rng.choice([None, None, None, 'without_ext', 'with_ext']) if gz is None else (gz or None)),
+                read_opts=(dict(unit_wav=rng.choice(['micron', 'nm', 'AA', 'mm']), unit_freq=rng.choice(['Hz', 'GHz', 'THz']),
+                                positional=bool(rng.random() < 0.5)) if rng.random() < 0.4 else None),
                 zeros=zeros, axes=axes, no_distance=bool(rng.random() < 0.1 if no_distance is None else no_distance),
                 nu_unit=nu_unit, wav_unit=wav_unit)
 
@@ -319,9 +322,17 @@ def address(case, path):
     return path + '.gz' if case.get('gz') == 'with_ext' else path
 
 
-def read_values(path, unit, order):
+def read_values(path, unit, order, opts=None):
+    """SED.read with the requested flux unit; `opts`: non-default unit_wav / unit_freq, keyword or positional call"""
     from sedfitter.sed import SED
-    s = SED.read(path, unit_flux=unit, order=order)
+    if opts:
+        U = units()
+        if opts.get('positional'):
+            s = SED.read(path, U[opts['unit_wav']], U[opts['unit_freq']], unit, order)
+        else:
+            s = SED.read(path, unit_wav=U[opts['unit_wav']], unit_freq=U[opts['unit_freq']], unit_flux=unit, order=order)
+    else:
+        s = SED.read(path, unit_flux=unit, order=order)
     return s, np.asarray(s.flux.to(unit).value, dtype=float), np.asarray(s.error.to(unit).value, dtype=float)
 
 
@@ -391,7 +402,7 @@ def run_case(case):
         raised = None
         try:
             with common.quiet():
-                s, got_f, got_e = read_values(path, U[b], case['order'])
+                s, got_f, got_e = read_values(path, U[b], case['order'], case.get('read_opts'))
         except Exception as ex:
             raised = ex
         if b not in KEYS:
@@ -451,10 +462,25 @@ def run_case(case):
         got_nu = np.asarray(s.nu.to(u.Hz).value, dtype=float)
         if not allclose(got_nu, nus, 1e-12):
             return CaseResult(False, violates=True, detail='SED.read frequencies %r differ from c/lambda %r' % (got_nu[:3], nus[:3]))
+        # the spectral axes come back in the units asked for (defaults: micron, Hz)
+        ro = case.get('read_opts') or {}
+        want_wu, want_fu = U[ro.get('unit_wav', 'micron')], U[ro.get('unit_freq', 'Hz')]
+        want_wav = (np.array(case['wav'], dtype=float)[perm] * u.micron).to(want_wu).value
+        if s.wav.unit != want_wu or s.nu.unit != want_fu or not allclose(np.asarray(s.wav.value, dtype=float), want_wav, 1e-12):
+            return CaseResult(False, violates=True, branches=sorted(branches),
+                              detail='SED.read(unit_wav=%s, unit_freq=%s) returned wav in %s, nu in %s, wav[:3] = %r (expected %r)'
+                              % (want_wu, want_fu, s.wav.unit, s.nu.unit, np.ravel(s.wav.value)[:3].tolist(), want_wav[:3].tolist()))
+        if ro:
+            branches.add('read_options_nondefault')
+            branches.add('read_call_positional' if ro.get('positional') else 'read_call_keyword')
         why = direct_checks(case, d, path, got_f, got_e, nus, d_cm)
         if why:
             return CaseResult(False, violates=True, branches=sorted(branches), detail=why)
         bad = sequential_reads(case, d, drv, branches)
+        if bad is not None:
+            bad.branches = sorted(branches)
+            return bad
+        bad = rewritten_file(case, d, drv, branches, os.path.join(d, 'a.fits'))
         if bad is not None:
             bad.branches = sorted(branches)
             return bad
@@ -463,6 +489,45 @@ def run_case(case):
         return CaseResult(True, branches=sorted(branches), key=common.canon_hash(case), nontrivial=True, sample=sample)
     finally:
         shutil.rmtree(d, ignore_errors=True)
+
+
+def rewritten_file(case, d, drv, branches, base):
+    """the same path read twice in a row with the same options while the file was replaced in between: the second read
+    must return the new contents"""
+    from astropy import units as u
+    U = units()
+    if not case.get('extras') or case['requested'] not in KEYS:
+        return None
+    x = case['extras'][0]
+    sub = stored_case(dict(case, wav=x['wav'], flux=x['flux'], err=x['err'], extras=[]))
+    a, ae, b = case['stored'], case.get('stored_err', case['stored']), case['requested']
+    path = address(case, base)
+    try:
+        with common.quiet():
+            read_values(path, U[b], case['order'], case.get('read_opts'))         # the old contents, just read
+            write_sed(sub, base, U[a])                                             # the file is replaced
+            s, got_f, got_e = read_values(path, U[b], case['order'], case.get('read_opts'))
+    except Exception as ex:
+        return CaseResult(False, violates=True, detail='reading %s again after it was rewritten raised %s: %s'
+                          % (os.path.basename(path), type(ex).__name__, ex))
+    d_cm = distance_cm(case)
+    nu = (np.array(sub['wav'], dtype=float) * u.micron).to(u.Hz, equivalencies=u.spectral()).value
+    perm = np.argsort(nu)
+    if case['order'] == 'wav':
+        perm = perm[::-1]
+    nus = [float(v) for v in nu[perm]]
+    want_f = model_convert(drv, sub, a, b, d_cm, nus, np.array(sub['flux'], dtype=float)[:, perm].tolist())
+    want_e = model_convert(drv, sub, ae, b, d_cm, nus, np.array(sub['err'], dtype=float)[:, perm].tolist())
+    tol = TOL[case.get('dtype', 'f8')]
+    branches.add('file_rewritten_between_reads')
+    got_nu = np.asarray(s.nu.to(u.Hz).value, dtype=float)
+    if not (allclose(got_f, want_f, tol) and allclose(got_e, want_e, tol) and allclose(got_nu, nus, 1e-12)):
+        return CaseResult(False, violates=True,
+                          detail=('%s was read, replaced by another SED (%d wavelengths %r..%r) and read again with the same options '
+                                  '(stored %s / %s, requested %s): flux %r, frequencies %r; expected for the new contents %r, %r'
+                                  % (os.path.basename(path), len(sub['wav']), sub['wav'][0], sub['wav'][-1], a, ae, b,
+                                     np.ravel(got_f)[:4].tolist(), got_nu[:3].tolist(), np.ravel(want_f)[:4].tolist(), nus[:3])))
+    return None
 
 
 def sequential_reads(case, d, drv, branches):
